@@ -193,12 +193,28 @@ def check(run: Run) -> None:
     for n in walk_no_nested(verify.node):
         if isinstance(n, ast.Assign) and isinstance(n.value, ast.Call) and ast.unparse(n.value.func) == "extract_seal" and isinstance(n.targets[0], ast.Name):
             seal_var = n.targets[0].id
+    from ..cfg import reaching_assignments
+
+    cases: list[tuple[object, str | None, int]] = []  # (return node, status member, node whose branch conditions decide it)
     for rn in [n for n in cfgv.nodes if isinstance(n.ast, ast.Return)]:
         status = None
         for c in ast.walk(rn.ast):
             if isinstance(c, ast.Attribute) and isinstance(c.value, ast.Name) and c.value.id == "SealStatus":
                 status = c.attr
-        conds = branch_conditions(cfgv, rn.id)
+        if status is None:
+            # `status=<local>`: one case per assignment of a status member that reaches the return (single exit, status chosen
+            # in the branches above it)
+            sv = next((k.value for c in ast.walk(rn.ast) if isinstance(c, ast.Call) for k in c.keywords if k.arg == "status" and isinstance(k.value, ast.Name)), None)
+            defs = reaching_assignments(cfgv, rn.id, sv.id) if sv is not None else None
+            if defs and all(isinstance(d, ast.Assign) and isinstance(d.value, ast.Attribute) and isinstance(d.value.value, ast.Name) and d.value.value.id == "SealStatus" for d in defs):
+                for d in defs:
+                    dn = [n for n in cfgv.nodes if n.ast is d]
+                    if dn:
+                        cases.append((rn, d.value.attr, dn[0].id))  # type: ignore[attr-defined]
+                continue
+        cases.append((rn, status, rn.id))
+    for rn, status, cond_at in cases:
+        conds = branch_conditions(cfgv, cond_at)
         eq = None
         for t, val in conds:
             if t is cmp_node.ast:
